@@ -48,10 +48,24 @@ Record sess_params := mkSess {
 
 Definition max_uint32 : Z := 4294967295.
 
-(* the checks of NewSession, in order *)
+(* order of the only group offered (secp256k1): an ID is an evaluation point = its bytes as a big-endian integer mod q *)
+Definition group_order : N := 115792089237316195423570985008687907852837564279074904382605163141518161494337.
+
+(* an ID must be non-empty and, when a group is given, must not map to the zero scalar *)
+Definition id_ok (grp : option bytes) (id : bytes) : bool :=
+  match id with
+  | [] => false
+  | _ => match grp with
+         | None => true
+         | Some _ => negb ((be_val id mod group_order =? 0)%N)
+         end
+  end.
+
+(* the checks of NewSession *)
 Definition new_session_ok (p : sess_params) : bool :=
   let ids := sort_ids (sp_ids p) in
   ids_valid ids
+  && forallb (id_ok (sp_group p)) ids
   && ids_contains ids (sp_self p)
   && (0 <=? sp_thr p)%Z && (sp_thr p <=? max_uint32)%Z
   && (0 <? Z.of_nat (length ids))%Z && (sp_thr p <=? Z.of_nat (length ids) - 1)%Z.
